@@ -55,3 +55,11 @@ Proof. exact nonvacuous. Qed.
 Theorem C19_nonvacuous_rejects_unguarded_access :
   flat_complaints (check_program (mini mini_bad_access) mini_bad_access ["Send"; "RemoveNode"; "Nodes"]%string [] []) = [("Nodes", KUnguardedRead, "Broker.nodes")]%string.
 Proof. exact bad_access_rejected. Qed.
+
+(* the wall clock is a pseudo field (clock!) of the type whose methods read it; guarded for FileSink: reading it before the sink's
+   mutex is taken is rejected, after it accepted (per run: Obl_C19.v and, for C15, Obl_clock.v filesink_clock_read_under_lock) *)
+Theorem C19_nonvacuous_clock_under_lock :
+  flat_complaints (check_program (clock_contracts [("Process", process_clock_early)]%string) [("Process", process_clock_early)]%string ["Process"]%string [] [])
+    = [("Process", KUnguardedRead, "FileSink.clock!")]%string /\
+  check_program (clock_contracts [("Process", process_clock_locked)]%string) [("Process", process_clock_locked)]%string ["Process"]%string [] [] = [].
+Proof. exact (conj clock_early_rejected clock_locked_accepted). Qed.
